@@ -203,7 +203,8 @@ type stepCtx struct {
 	now           time.Time
 	drift, period time.Duration
 	num, den      int64
-	exact         int // number of evaluated steps that sat exactly on the trust level
+	exact         int  // number of evaluated steps that sat exactly on the trust level
+	strictAll     bool // reachable() uses the strict boundary
 }
 
 func (sc *stepCtx) expired(T *binfo) bool { return !T.t.Add(sc.period).After(sc.now) }
@@ -285,7 +286,7 @@ func (sc *stepCtx) reachable(target *binfo, roots, cands []*binfo) (bool, string
 			var ok bool
 			var why string
 			if x.h < b.h {
-				ok, why = sc.fwd(x, b, false)
+				ok, why = sc.fwd(x, b, sc.strictAll)
 			} else if x.h > b.h {
 				ok = back(x, b) && b.wf
 				why = "no hash link"
@@ -1251,7 +1252,9 @@ func (s *sim) drawCall(rng *simcore.RNG) simcore.Op {
 		base = x
 	}
 	var now int64
-	switch rng.Weighted([]int{45, 20, 9, 4, 9, 4, 9}) {
+	mode := rng.Weighted([]int{22, 40, 8, 3, 8, 3, 16})
+	o["adv"] = mode == 0 || mode == 1 || mode == 6
+	switch mode {
 	case 0:
 		now = base + int64(rng.Range(0, 3000))*int64(time.Millisecond)
 	case 1:
@@ -1442,7 +1445,7 @@ func (s *sim) Apply(op simcore.Op) bool {
 			return false
 		}
 		s.callsLeft--
-		if op.Int64("now") > s.lastNow {
+		if op.Bool("adv") && op.Int64("now") > s.lastNow {
 			s.lastNow = op.Int64("now")
 		}
 	case "rel":
@@ -1991,15 +1994,31 @@ func (s *sim) finishCall() {
 		}
 	}
 	if sc.exact > 0 {
+		// what does the code do when the signed power equals the trust level exactly?
 		e.Count("probe.trust_level_exact_step_seen")
-		if target != nil && t0 != nil && target.h > t0.h+1 {
+		sc.strictAll = true
+		for _, h := range newHs {
+			if b := post[h]; b.wf && h > minPre {
+				if ok, _ := sc.reachable(b, roots, cands); !ok {
+					e.Count("probe.tl_boundary_accepted_only_with_equality")
+				}
+			}
+		}
+		sc.strictAll = false
+		if target != nil && t0 != nil && target.h > t0.h+1 && !s.seq {
 			okL, _ := sc.fwd(t0, target, false)
 			okS, _ := sc.fwd(t0, target, true)
 			if okL && !okS {
-				if _, stored := post[target.h]; stored && c.retErr == nil {
+				direct := true // did the primary serve anything between t0 and the target?
+				for _, r := range c.replies {
+					if r.reqH > t0.h && r.reqH < target.h {
+						direct = false
+					}
+				}
+				if _, stored := post[target.h]; stored && direct {
 					e.Count("probe.tl_boundary_direct_step_accepted")
-				} else {
-					e.Count("probe.tl_boundary_direct_step_not_accepted")
+				} else if !direct {
+					e.Count("probe.tl_boundary_direct_step_bisected")
 				}
 			}
 		}
